@@ -66,7 +66,7 @@ def estimators_native(vc):
     vc.ensures("mode_is_a_local_maximum_of_the_density", float(E(E.mode)) >= float(np.max(E(near))) * (1 - 1e-6) - slack
                and float(E(E.mode)) >= pg.max() * 0.8)
     vc.ensures(f"{est}.mode_is_the_global_maximum", float(E(E.mode)) >= pg.max() * (1 - 2e-3))
-    for f in (0.3, 0.68, 0.95):
+    for f in (0.3, 0.68, 0.95, 0.5 / n, 0.01):          # (also fractions smaller than one sample's worth)
         a, b = E.interval(f)
         Fa, Fb = np.asarray(E.cdf(np.array([a, b])))
         Pa, Pb = np.asarray(E(np.array([a, b])))
